@@ -167,6 +167,50 @@ def nobody_returns(acc, img, cfg, seed, case, replay):
         rmtree(wd)
 
 
+SERVE_BAD = ("internal failure in handler", "server dropped the connection", "transaction left open after step",
+             "sweep failed", "timer fired without a sweep", "failed sweep left partial changes",
+             "duplicate nameplate row", "duplicate nameplate side row", "duplicate mailbox side row",
+             "allocated nameplate violates free/shortest rule", "allocated nameplate not held by the allocating side",
+             "frame emitted inside an open transaction")
+
+
+def others_return(acc, img, cfg, seed, case, replay, hi):
+    """Third continuation: the in-flight client never returns, *other* clients do.  A service on the image
+    serves an allocate-heavy generated continuation under the full tracker; the objects found in the image
+    are of unknown origin (their lifetime oracles are off), but the server must serve without internal
+    errors, dropped connections, duplicate records or allocations of names that are still stored."""
+    acc.ev["c10_others_return"] += 1
+    wd = new_workdir("or")
+    copy_db_files(img["dir"], wd)
+    ex = Exec(cfg, seed=seed, workdir=wd, t0=img["t"])
+    try:
+        try:
+            ex.start()
+        except Exception as e:
+            viol(acc, case, "server cannot start on the crashed files", {"exc": repr(e), "image": _img(img)}, replay)
+            return
+        from ..scenarios import HB
+        b = HB()
+        b.n = 800
+        for i in range(10):
+            c = b.conn("app" if i % 3 else "app2", "s%d" % (1 + i % 3))
+            b.send(c, type="allocate")
+            if i % 2:
+                b.send(c, type="list")
+        g = Gen(seed * 104729 + hi, **dict(GEN, steps=24))
+        g.nconn = 900
+        ex.run(b.h + g.gen(), stop_on_violation=False)
+        bad = [v for v in ex.tracker.violations if v["kind"] in SERVE_BAD]
+        if bad:
+            viol(acc, case, "restarted server does not serve other clients cleanly after a crash",
+                 {"first": {"kind": bad[0]["kind"], "detail": bad[0]["detail"]}, "image": _img(img)}, replay)
+        acc.steps += ex.world.counters["steps"]
+        acc.frames += ex.world.counters["frames"]
+    finally:
+        ex.close()
+        rmtree(wd)
+
+
 def continuation(acc, imgdir, t, cfg, seed, counters, binds, resend, suffix):
     """Service on a copy of imgdir; everybody reconnects; [re-send]; suffix.  -> (frames, store, resend answer)"""
     wd = new_workdir("co")
@@ -206,7 +250,7 @@ def continuation(acc, imgdir, t, cfg, seed, counters, binds, resend, suffix):
         rmtree(wd)
 
 
-def analyse_history(acc, hist, cfg, seed, case, max_resume, rnd):
+def analyse_history(acc, hist, cfg, seed, case, max_resume, rnd, others_p=1.0):
     database = load_db()
     root = new_workdir("c10")
     imager = Imager(os.path.join(root, "images"))
@@ -255,6 +299,10 @@ def analyse_history(acc, hist, cfg, seed, case, max_resume, rnd):
                     rp = dict(replay, image=img["n"])
                     if check_image_static(acc, database, img, ls, icase, rp):
                         nobody_returns(acc, img, cfg, seed, icase, rp)
+                        # images strictly inside a multi-commit command are the interesting ones for other clients
+                        mid_cmd = img is not info["images"][-1] and img is not info["images"][0]
+                        if mid_cmd and not acc.nviol and rnd.random() < others_p:
+                            others_return(acc, img, cfg, seed, icase + ":others", dict(rp, others=True), hi)
                 s = info["hist_step"]
                 if s[0] == "send" and isinstance(info["wstep"].msg, dict) and info["wstep"].msg.get("type") in RESUMABLE \
                         and info["wstep"].kind == "cmd" and s[1] in binds_static:
@@ -397,7 +445,7 @@ def run_job(pid, job, acc):
     s = job["seed"]
     hist = generate(s, **GEN)
     cfg = cfg_for(s)
-    analyse_history(acc, hist, cfg, s, "random:%d" % s, job["max_resume"], random.Random(s))
+    analyse_history(acc, hist, cfg, s, "random:%d" % s, job["max_resume"], random.Random(s), others_p=0.4)
 
 
 def replay(pid, rep):
